@@ -383,6 +383,9 @@ LOOP_HOFS = {
     "std::iter::Iterator::try_for_each": ("try_for_each", False, True),
     "std::iter::Iterator::fold": ("fold", True, False),
     "std::iter::Iterator::try_fold": ("try_fold", True, True),
+    "std::iter::Iterator::find": ("find", False, False),
+    "std::iter::Iterator::any": ("any", False, False),
+    "std::iter::Iterator::all": ("all", False, False),
 }
 UNIT = {"k": "const", "ck": "zst_or_other", "ty": "()", "text": "()"}
 
@@ -474,7 +477,29 @@ class Desugarer:
                                   asg(_pl(n_env), {"k": "ref", "mut": True, "place": _pl(clocal)}, "hof")],
               "term": {"k": "call", "callee": ccallee, "args": call_args, "dst": _pl(n_r), "target": A, "line": line}}
         blocks.append(bd)
-        if not is_try:
+        if name in ("find", "any", "all"):
+            # the closure yields a bool: stop at the first element that satisfies (find, any) / violates (all) it
+            def cbool(v):
+                return {"k": "const", "ck": "bool", "ty": "bool", "int": 1 if v else 0, "text": "true" if v else "false"}
+            if name == "find":
+                # find's predicate takes `&Item`
+                n_xr = len(c["locals"])
+                c["locals"].append({"s": "&" + c["locals"][n_x].get("s", "?"), "ref": "shared"})
+                c["locals"][n_x] = {"s": "?"}
+                bd["stmts"].insert(1, asg(_pl(n_xr), {"k": "ref", "mut": False, "place": _pl(n_x)}, "hof"))
+                bd["term"]["args"][-1] = _mv(n_xr)
+                hit_rv = {"k": "aggregate", "agg": "adt", "adt": "std::option::Option", "variant": "Some", "fields": ["0"], "ops": [_mv(n_x)]}
+                xrv = {"k": "aggregate", "agg": "adt", "adt": "std::option::Option", "variant": "None", "fields": [], "ops": []}
+                stop_on = True
+            else:
+                hit_rv = {"k": "use", "op": cbool(name == "any")}
+                xrv = {"k": "use", "op": cbool(name == "all")}
+                stop_on = name == "any"
+            tg = [[0, A3 if stop_on else H, None]]
+            blocks.append({"id": A, "stmts": [], "term": {"k": "switch", "discr": _mv(n_r), "discr_ty": "bool", "targets": [[0, H if stop_on else A3, None]],
+                                                          "otherwise": A3 if stop_on else H, "line": line}})
+            blocks.append({"id": A3, "stmts": [asg(copy.deepcopy(dst), hit_rv, "hof")], "term": {"k": "goto", "target": target, "line": line}})
+        elif not is_try:
             st = [asg(_pl(n_acc), {"k": "use", "op": _mv(n_r)}, "hof")] if has_acc else []
             blocks.append({"id": A, "stmts": st, "term": {"k": "goto", "target": H, "line": line}})
             xrv = {"k": "use", "op": _mv(n_acc) if has_acc else copy.deepcopy(UNIT)}
